@@ -24,7 +24,8 @@ RULE = (
     "every finished job's result is collected and every node process exits 0; non-trivial = >= 2 hooks set and "
     "(>= 2 batches or local mode with >= 2 jobs); distinct by hash of the case"
 )
-ASSUMPTIONS = C.WORLD_ASSUMPTIONS + ["hook commands succeed (exit 0)"]
+ASSUMPTIONS = C.WORLD_ASSUMPTIONS + ["the setup and node-setup commands succeed (a failing one aborts by design); the two "
+                                      "teardown commands may exit non-zero"]
 setup, teardown = C.setup, C.teardown
 
 
@@ -38,6 +39,8 @@ def strategy(tier):
         # a lost batch (sbatch failing for its whole retry series): the submission then completes with missing jobs --
         # still a completion, so the teardown command must run
         "lose": st.one_of(st.none(), st.none(), st.none(), st.integers(0, 3)),
+        # the two teardown commands may fail (JADE logs the failure and carries on); the setup commands succeed
+        "hook_rc": st.fixed_dictionaries({"teardown": st.sampled_from([0, 0, 5]), "node_teardown": st.sampled_from([0, 0, 3])}),
     })
 
 
@@ -48,6 +51,9 @@ def run_case(case):
     faults = [] if case.get("lose") is None or local else [{"kind": "sbatch_fail_series", "nth": case["lose"]}]
     with H.Sim(scn, schedule=case["schedule"], snapshots=True, faults=faults) as sim:
         w = sim.w
+        w.hook_rc.update(case.get("hook_rc") or {})
+        if any((case.get("hook_rc") or {}).values()):
+            pass
         at_hook = {}
 
         def observer(rec):
@@ -70,6 +76,8 @@ def run_case(case):
         lost = any(r["k"] == "sbatch_fail" for r in w.log)
         if lost:
             res["classes"].append("completed_with_missing_jobs")
+        if any(r["what"] in ("teardown", "node_teardown") and (case.get("hook_rc") or {}).get(r["what"]) for r in w.events("hook")):
+            res["classes"].append("a_teardown_command_failed")
         w.faults[:] = []
         if outcome == "complete" and case["resubmit"] and not local:
             w.note("user", cmd="resubmit")
